@@ -149,7 +149,10 @@ def main(ctx: Ctx) -> int:
         except (NotImplementedError, RuntimeError, ValueError) as e:
             refused = f"{type(e).__name__}: {str(e)[:80]}"
         if sts is not None and len(sts) != len(grp):
-            raise MachineryError(f"{len(sts)} rate statements for {len(grp)} lines: {lines}")
+            # a reaction without its rate statement (e.g. the statement glued onto a comment line): its coefficient is never computed
+            ctx.violation(f"C05|RateStatementPerReaction|fmt={fmt}", f"{len(sts)} rate statements were emitted for {len(grp)} reactions: {lines[:2]}",
+                          {"lines": lines, "statements": [st["expr"][:80] for st in sts]})
+            continue
         for pos, ci in enumerate(grp):
             cs = cases[ci]
             a, b, c = (cs[k] if cs.get("long") else printed_value(fmt, k, cs[k]) for k in ("a", "b", "c"))
